@@ -263,10 +263,10 @@ class Combiner(Node):
        
         if out_edge.__class__.__name__ == "ConveyorBelt":                 
                 put_token = out_edge.reserve_put()
-                pe = yield put_token
+                yield put_token  # the reservation event carries no value: the token itself is the reservation
                 item_to_push.update_node_event(self.id, self.env, "exit")
                 
-                y=out_edge.put(pe, item_to_push)
+                y=out_edge.put(put_token, item_to_push)
                 if y:
                     print(f"T={self.env.now:.2f}: {self.id} puts {item_to_push.id} item into {out_edge.id}  ")
         elif out_edge.__class__.__name__ == "Buffer":
